@@ -321,6 +321,7 @@ pub mod cluster {
             tablet_tables,
             &HashMap::new(),
             false,
+            &[],
         )
         .await
     }
@@ -332,7 +333,16 @@ pub mod cluster {
         tablet_tables: &HashMap<String, Vec<String>>,
         tablet_views: &HashMap<String, Vec<String>>,
     ) -> ClusterState {
-        build_state(None, nodes, keyspaces, tablet_tables, tablet_views, false).await
+        build_state(
+            None,
+            nodes,
+            keyspaces,
+            tablet_tables,
+            tablet_views,
+            false,
+            &[],
+        )
+        .await
     }
 
     /// A metadata refresh: `previous.new_updated(metadata, ..)` with the new topology / keyspaces
@@ -351,6 +361,7 @@ pub mod cluster {
             tablet_tables,
             &HashMap::new(),
             false,
+            &[],
         )
         .await
     }
@@ -370,6 +381,32 @@ pub mod cluster {
             tablet_tables,
             tablet_views,
             false,
+            &[],
+        )
+        .await
+    }
+
+    /// The general form of the builders above. `previous = None` is `ClusterState::new`, `Some(p)` is
+    /// `p.new_updated(..)`. Every name in `failed_keyspaces` is put into `Metadata.keyspaces` as
+    /// `Err(..)` (its fetch failed): `resolve_metadata_keyspaces` then reuses the previous state's
+    /// version or drops the keyspace. `accepting` as in `cluster_refresh_accepting`.
+    pub async fn cluster_state_general(
+        previous: Option<&ClusterState>,
+        nodes: &[NodeSpec],
+        keyspaces: &[KeyspaceSpec],
+        tablet_tables: &HashMap<String, Vec<String>>,
+        tablet_views: &HashMap<String, Vec<String>>,
+        failed_keyspaces: &[String],
+        accepting: bool,
+    ) -> ClusterState {
+        build_state(
+            previous,
+            nodes,
+            keyspaces,
+            tablet_tables,
+            tablet_views,
+            accepting,
+            failed_keyspaces,
         )
         .await
     }
@@ -413,6 +450,7 @@ pub mod cluster {
             tablet_tables,
             &HashMap::new(),
             true,
+            &[],
         )
         .await
     }
@@ -476,9 +514,10 @@ pub mod cluster {
         tablet_tables: &HashMap<String, Vec<String>>,
         tablet_views: &HashMap<String, Vec<String>>,
         accepting: bool,
+        failed_keyspaces: &[String],
     ) -> ClusterState {
         let peers = peers_of(nodes);
-        let keyspaces = keyspaces
+        let mut keyspaces: HashMap<_, _> = keyspaces
             .iter()
             .map(|k| {
                 (
@@ -521,6 +560,16 @@ pub mod cluster {
                 )
             })
             .collect();
+        for name in failed_keyspaces {
+            keyspaces.insert(
+                name.clone(),
+                Err(
+                    crate::cluster::metadata::SingleKeyspaceMetadataError::IncompletePartitionKey(
+                        0,
+                    ),
+                ),
+            );
+        }
         let metadata = Metadata {
             peers,
             keyspaces,
